@@ -481,9 +481,17 @@ func backpressureSession(c *hx.Ctx, k int, r *rand.Rand) {
 		return
 	}
 	want = append(want, refipfix.EncodeTemplateRecord(t.tid, gen.Fields(t.elems)))
+	// one backpressure session in 16 stalls for 6.5 s instead of 0.3 s: long enough for any send timeout an exporter
+	// may have. There a send MAY fail; what reaches the peer must still be whole messages of the application, in
+	// order - a partial message is tolerable only as the very last thing the exporter ever wrote
+	long := (k/8+c.Batch)%16 == 3
+	stall := 300 * time.Millisecond
+	if long {
+		stall = 6500 * time.Millisecond
+	}
 	var progress atomic.Int64
 	stopMon := make(chan struct{})
-	go func() { // start draining once the sender has been stuck for 300 ms
+	go func() { // start draining once the sender has been stuck for the stall time
 		last, since := int64(-1), time.Now()
 		for {
 			select {
@@ -494,30 +502,51 @@ func backpressureSession(c *hx.Ctx, k int, r *rand.Rand) {
 			}
 			if p := progress.Load(); p != last {
 				last, since = p, time.Now()
-			} else if time.Since(since) > 300*time.Millisecond {
+			} else if time.Since(since) > stall {
 				close(resume)
 				return
 			}
 			time.Sleep(5 * time.Millisecond)
 		}
 	}()
+	type attempt struct {
+		body []byte
+		ok   bool
+	}
+	attempts := []attempt{{want[0], true}}
 	nsend := 600 + r.IntN(600)
 	pad := gen.Bytes(r, 12000)
 	var sendErr error
-	failedAt := -1
+	failedAt, afterFail, okAfterFail := -1, 0, 0
 	for i := 1; i <= nsend; i++ {
 		rec := [][]byte{refipfix.PU(4, uint64(i)), pad[:8000+r.IntN(4000)]}
 		set := entities.NewSet(false)
 		if err := lib.FillDataSet(set, t.tid, t.elems, [][][]byte{rec}, nil); err != nil {
 			panic(err)
 		}
-		if _, err := ep.SendSet(set); err != nil {
-			sendErr, failedAt = err, i
-			break
-		}
 		body, _ := refipfix.EncodeRecord(gen.Widths(t.elems), rec)
-		want = append(want, body)
-		progress.Add(1)
+		if _, err := ep.SendSet(set); err != nil {
+			if failedAt < 0 {
+				sendErr, failedAt = err, i
+			}
+			attempts = append(attempts, attempt{body, false})
+			if !long {
+				break
+			}
+		} else {
+			attempts = append(attempts, attempt{body, true})
+			if failedAt >= 0 {
+				okAfterFail++
+			}
+			progress.Add(1)
+		}
+		if failedAt >= 0 {
+			// the application goes on for a while after a failed send (the peer is reading again by now)
+			if afterFail++; afterFail > 12 {
+				break
+			}
+			time.Sleep(40 * time.Millisecond)
+		}
 	}
 	select {
 	case <-resume:
@@ -538,25 +567,50 @@ func backpressureSession(c *hx.Ctx, k int, r *rand.Rand) {
 	default:
 		blocked = true // the monitor resumed the reader because the sender was stuck: back-pressure was reached
 	}
-	if sendErr != nil {
+	if sendErr != nil && !long {
 		c.Violation(k, "send-failed-under-backpressure", fmt.Sprintf("SendSet %d of %d failed with %q although the collector never closed the connection (it was only slow to read)", failedAt, nsend, sendErr), nil)
 		return
 	}
+	if sendErr != nil {
+		c.Add("long_stall_sessions_with_a_failed_send", 1)
+	}
 	msgs, tail := refipfix.Frame(cp.data)
-	if len(tail) != 0 || len(msgs) != len(want) {
-		c.Violation(k, "stream-corrupt-under-backpressure", fmt.Sprintf("%d whole messages + %d stray bytes at the peer for %d successful sends", len(msgs), len(tail), len(want)), nil)
+	if len(tail) != 0 && !(long && failedAt >= 0 && okAfterFail == 0) {
+		c.Violation(k, "stream-corrupt-under-backpressure", fmt.Sprintf("%d whole messages + %d stray bytes at the peer (first failed send: %d, successful sends after it: %d)", len(msgs), len(tail), failedAt, okAfterFail), nil)
 		return
 	}
+	ptr := 0
 	for i, m := range msgs {
 		pm, err := refipfix.ParseMessage(m)
-		mr := 4
-		if i > 0 {
-			mr = refipfix.MinRecordLen(gen.Widths(t.elems))
+		found := false
+		for err == nil && ptr < len(attempts) {
+			mr := 4
+			if ptr > 0 {
+				mr = refipfix.MinRecordLen(gen.Widths(t.elems))
+			}
+			at := attempts[ptr]
+			ptr++
+			if refipfix.SameBody(pm.Body, at.body, mr) {
+				found = true
+				break
+			}
+			if at.ok {
+				break // a successful send is missing from the stream
+			}
 		}
-		if err != nil || !refipfix.SameBody(pm.Body, want[i], mr) {
-			c.Violation(k, "stream-corrupt-under-backpressure", fmt.Sprintf("message %d at the peer is not the application's %d-th send (%v)", i, i, err), nil)
+		if !found {
+			c.Violation(k, "stream-corrupt-under-backpressure", fmt.Sprintf("message %d at the peer is not the application's next send (%v)", i, err), nil)
 			return
 		}
+	}
+	for ; ptr < len(attempts); ptr++ {
+		if attempts[ptr].ok {
+			c.Violation(k, "stream-corrupt-under-backpressure", fmt.Sprintf("%d whole messages at the peer; successful send %d is not among them", len(msgs), ptr), nil)
+			return
+		}
+	}
+	if long {
+		c.Add("long_stall_sessions", 1)
 	}
 	c.Add("backpressure_sessions", 1)
 	if blocked {
